@@ -43,6 +43,15 @@ def make_task(rng, W=None, GS=None, starve=None):
         if g2["kind"] == "soap":
             g2["method"] = "eigh"
         groups.append(g2)
+    for gg in groups:
+        r = rng.random()
+        n = len(gg["shapes"])
+        if r < 0.12:
+            gg["dtypes"] = ["float64"] * n                       # FP32 communication is then REDUCED precision
+        elif r < 0.2:
+            gg["dtypes"] = [rng.choice(["bfloat16", "float16"])] * n
+        elif r < 0.4:                                            # mixed-precision group, any order (narrow first included)
+            gg["dtypes"] = [rng.choice(["bfloat16", "float32", "float32", "float64", "float16"]) for _ in range(n)]
     draw = family.make_draw(rng, groups, dtype="float32", pdtype="float32")
     masks = dc.random_masks(rng, draw, rng.choice([3, 4, 5]))
     return {"draw": draw, "W": W, "GS": GS, "comm": rng.choice(["fp32", "fp32", "bf16", "fp16"]), "comm_params": rng.random() < 0.4,
@@ -170,6 +179,8 @@ def run(ctx):
     hist = {}
     for t, v in zip(tasks, verdicts):
         k = f"W={t['W']},GS={t['GS']},{t['comm']},params={t['comm_params']},pgs={len(t['draw']['groups'])}"
+        if any(g.get("dtypes") for g in t["draw"]["groups"]):
+            ctx.add("worlds_with_non_float32_parameters")
         hist[k] = hist.get(k, 0) + 1
     ctx.put("configurations_run", hist)
     ctx.put("histories_with_starvation", sum(1 for v in verdicts if v["starves"]))
@@ -177,7 +188,7 @@ def run(ctx):
     ctx.put("rule", "MC: ShampooDist for W<=4, every divisor group size, 3-6 blocks in one or two parameter groups (gathers of different groups have different signatures), every mask history, every interleaving of rank-local "
                     "computation and group gathers: deadlock freedom, NoRankLeftWaiting (liveness), SerialEquivalence, ReplicaAgreement, "
                     "OwnerUnique, CreationAgreement; R: the real DDPDistributor + optimizer on W<=8 simulated ranks (thread-per-rank process "
-                    "group, arrival gates with seeded release order, exact deadlock/mismatch detection), float32 parameters, FP32/BF16/FP16 "
+                    "group, arrival gates with seeded release order, exact deadlock/mismatch detection), float32 / float64 / 16-bit / mixed parameters, FP32/BF16/FP16 "
                     "communication, communicate updates or parameters, Shampoo and SOAP, random mask histories; every rank after every step "
                     "bitwise equal to the serial optimizer whose communicated quantity is rounded through the communication dtype; T: per-rank "
                     "logs of group creations and gathers validated by TLC (DistTrace) against the specification; non-trivial = W>1 with a mask change")
